@@ -6,7 +6,10 @@ Import ListNotations.
 
 (* ------------------------------------------------------------------ linearizability, all schedules *)
 (* For ANY number of threads, ANY scripts of API calls (Get/Has/Set/Delete/DeletePrefix/Clear/Iterate/
-   IterateKeys/Flush/WithRealm/Batched/Close/batch Commit, through any views, plain or flushkv-wrapped) and
+   IterateKeys/Flush/WithRealm/Batched/Close/batch Commit, through any views, plain or flushkv-wrapped;
+   Iterate/IterateKeys also with RE-ENTRANT consumers, CIterRe: the consumer makes arbitrary API calls - reads,
+   writes, further re-entrant iterations - through any views from inside its invocations; every nested call
+   is a call of its own with its own invocation/response stamps inside the interval of the Iterate) and
    ANY schedule (interleaving of the threads' instructions, blocked entries skipped), the history of atomic
    operations - every single operation, every individual write of a Commit, every Flush of a flushkv call,
    each with the invocation/response stamps of its call - is linearizable w.r.t. the sequential contract
@@ -56,11 +59,24 @@ Proof. exact closed_after_return. Qed.
 
 (* ------------------------------------------------------------------ the lock skeleton *)
 (* No reachable state is stuck: as long as some thread has not finished all its calls, some thread can take a
-   step (view lock -> map lock hierarchy, no re-entry, RWMutex with writer preference). *)
+   step (view lock -> map lock hierarchy, no re-entry, RWMutex with writer preference). This covers re-entrant
+   consumers (CIterRe): the callbacks of an Iterate run after the map's read lock was released and Iterate takes
+   no view lock, so the consumer's nested calls start with no lock held (Locks.ok_prog demands exactly that of
+   ICallbacks / IInvoke / IReturn). *)
 Theorem C05_no_deadlock : forall scripts sch,
   let s := run sch (init scripts) in
   (exists th, In th (threads s) /\ finished th = false) -> exists t s', step s t = Some s'.
 Proof. exact no_deadlock. Qed.
+
+(* The discipline is necessary: in the variant that keeps the view's read lock across the consumer callbacks
+   (Model.compile_held: s.RLock(); defer s.RUnlock() in Iterate/IterateKeys) there are scripts and a schedule
+   after which some call has not returned and NO thread can ever take a step again: the consumer reads through
+   the iterated view while a Set on that view is waiting (recursive RLock behind an announced writer). *)
+Theorem C05_refuted_rlock_across_callbacks :
+  exists scripts sch,
+    let s := run_with compile_held sch (init scripts) in
+    (exists th, In th (threads s) /\ finished th = false) /\ (forall t, step_with compile_held s t = None).
+Proof. exact rlock_across_callbacks_deadlocks. Qed.
 
 (* Every effect on the shared map happens while its thread holds the map lock, writes hold it exclusively. *)
 Theorem C05_effects_under_lock : forall scripts sch th o p,
@@ -123,6 +139,41 @@ Proof. vm_compute. reflexivity. Qed.
 Example it_unfinished : map finished (threads (run it_sch (init it_scripts))) = [false; true].
 Proof. vm_compute. reflexivity. Qed.
 
+(* a re-entrant consumer: goroutine 0 iterates the root; inside the first callback it reads "a" through the view
+   with realm "a" and overwrites the entry it is being handed, inside the second it iterates again (nested
+   consumer deletes); goroutine 1 writes in between. Nested calls have their own ids/stamps; the outer Iterate
+   reports the snapshot taken before any callback ran. *)
+Definition re_scripts :=
+  [[CSet ex_v0 [97]%N [1]%N; CSet ex_v0 [98]%N [2]%N;
+    CIterRe ex_v0 [] true false 9
+      [[CGet ex_v1 []; CSet ex_v0 [97]%N [3]%N];
+       [CIterRe ex_v1 [] true true 9 [[CDel ex_v0 [98]%N]]]]];
+   [CSet ex_v1 [99]%N [4]%N]].
+Definition re_sch := repeat 0 24 ++ repeat 1 8 ++ repeat 0 60.
+
+Example re_history :
+  map (fun r => (o_call r, o_inv r, o_res r, o_op r, o_ret r)) (recs (run re_sch (init re_scripts))) =
+  [((0, 0), 0, Some 7, OSet [97]%N [1]%N, ROk);
+   ((0, 1), 8, Some 15, OSet [98]%N [2]%N, ROk);
+   ((0, 2), 16, Some 61, OIter [] 0 true false 9, RList [([97]%N, [1]%N); ([98]%N, [2]%N)]);
+   ((1, 0), 24, Some 31, OSet [97; 99]%N [4]%N, ROk);
+   ((0, 3), 22, Some 37, OGet [97]%N, RVal [1]%N);
+   ((0, 4), 38, Some 45, OSet [97]%N [3]%N, ROk);
+   ((0, 5), 46, Some 60, OIter [97]%N 1 true true 9, RList [([]%N, []%N); ([99]%N, []%N)]);
+   ((0, 6), 52, Some 59, ODel [98]%N, ROk)].
+Proof. vm_compute. reflexivity. Qed.
+
+Example re_all_finished : map finished (threads (run re_sch (init re_scripts))) = [true; true].
+Proof. vm_compute. reflexivity. Qed.
+
+Example re_checker_accepts : lin_check (recs (run re_sch (init re_scripts))) = true.
+Proof. vm_compute. reflexivity. Qed.
+
+(* hypothesis of C05_no_deadlock with a consumer in the middle of a nested call *)
+Example re_unfinished_inside_callback :
+  map (fun th => (finished th, cidx th)) (threads (run (repeat 0 24) (init re_scripts))) = [(false, 3); (false, 0)].
+Proof. vm_compute. reflexivity. Qed.
+
 (* the checker is not trivially true: a stale read, a torn snapshot and a success after Close are rejected *)
 Example checker_rejects_stale_read :
   lin_check [mkO (0,0) 1 (Some 2) (OSet [97]%N [1]%N) ROk; mkO (0,1) 3 (Some 4) (OSet [97]%N [2]%N) ROk;
@@ -150,5 +201,6 @@ Print Assumptions C05_effect_instant.
 Print Assumptions C05_iterate_snapshot.
 Print Assumptions C05_closed_after_return.
 Print Assumptions C05_no_deadlock.
+Print Assumptions C05_refuted_rlock_across_callbacks.
 Print Assumptions C05_effects_under_lock.
 Print Assumptions C05_lin_check_sound.
